@@ -71,5 +71,5 @@ for t1 in DTYPS:
           sweep={'in_u1': 'RND', 'in_u2': 'RND'})
 G('da.dt_ddiff.BD.DAISY', 'date-core', 'dt_ddiff', ['C07'], ins=[('uint32_t', 'in_u1'), ('uint32_t', 'in_u2'), ('int', 'in_carry')],
   setup='struct dt_d_s d1 = {DT_DUNK}; d1.typ = DT_DAISY; d1.u = in_u1; struct dt_d_s d2 = {DT_DUNK}; d2.typ = DT_DAISY; d2.u = in_u2;',
-  call='dt_ddiff(DT_DURBD, d1, d2, in_carry)', ret='struct dt_ddur_s', replace=['dt_conv_to_daisy', '__get_nbdays', '__daisy_get_wday'], solvers=SV, timeout=900,
+  call='dt_ddiff(DT_DURBD, d1, d2, in_carry)', ret='struct dt_ddur_s', replace=['dt_conv_to_daisy', '__get_nbdays', '__daisy_get_wday'], solvers=SV, timeout=3000, tier='thorough',
   sweep={'in_u1': '1 + RND % 911280', 'in_u2': '1 + RND % 911280'})
